@@ -682,8 +682,14 @@ func (c *Chain) DrawTx(t *rapid.T, version string) core.Transaction {
 		tx = dtx
 	case "l1handler":
 		from := Felt128().Draw(t, "l1from")
-		tx = &core.L1HandlerTransaction{Version: txVersion(0), ContractAddress: &addr, EntryPointSelector: ptr(Felt().Draw(t, "sel")),
+		l1 := &core.L1HandlerTransaction{Version: txVersion(0), ContractAddress: &addr, EntryPointSelector: ptr(Felt().Draw(t, "sel")),
 			Nonce: &nonce, CallData: append([]felt.Felt{from}, Felts(3).Draw(t, "cd")...)}
+		if rapid.IntRange(0, 4).Draw(t, "legacyL1Handler") == 0 {
+			// the L1 handlers of the first Starknet versions carry no nonce; their hash is not re-derivable (given)
+			l1.Nonce = nil
+			l1.TransactionHash = ptr(crypto.PoseidonElems(FP(0x11a), &nonce))
+		}
+		tx = l1
 	case "deploy":
 		ch := Felt().Draw(t, "ch")
 		salt := nonce
